@@ -53,7 +53,9 @@ def honest_corpus(name: str) -> tuple[list, int]:
         return LATE_CACHE[name]
 
     async def main(loop):
-        env = await capture.run_scenario(loop, name)
+        env = capture.Env(loop)
+        env.net.single_step = True
+        env = await capture.run_scenario(loop, name, env)
         tgt, ov = env.target_node, env.target_overlay
         got = [(fl.src, fl.data) for fl in env.net.delivered if fl.dst == tgt.address and fl.data[:22] == ov.get_prefix()]
         n = len(env.net.delivered)
@@ -76,6 +78,7 @@ class UnloadRun:
         name = c["scenario"]
         late, _ = honest_corpus(name) if not c.get("_nolate") else ([], 0)
         env = capture.Env(loop)
+        env.net.single_step = True     # one delivery per loop iteration, so that the unload really lands between two
         st = {"deliveries": 0, "unload_task": None, "done": False, "handler_after": [], "owned_transports": [],
               "tracked": [], "busy": False, "sends_after": []}
         self.st = st
